@@ -8,9 +8,10 @@
      []T <- sequence only                 struct <- mapping: keys matched case-insensitively, unknown key = error,
      any <- the raw value                 two keys for one field = error
      map[string]any <- mapping with string (or null = "") keys
-   A mapping decoded into a NESTED struct arrives as map[interface{}]interface{}; mapstructure's report of
-   unused keys does rawKey.(string): a non-string key there is a PANIC (mapstructure.go, decodeStructFromMap).
-   At the top level yaml.v2 has already turned every scalar key into a string, so it is an unknown key (error).
+   A mapping decoded into a NESTED struct arrives as map[interface{}]interface{}; a non-string key there is
+   refused by loader.go's decode hook (fix e67ca4a).  At the top level yaml.v2 has already turned every
+   scalar key into a string, so it is an unknown key (error).  After decoding, assertNoNullElements
+   (fix c021988) refuses null elements in steps / functions / preconditions.
    yaml.v2 rejects a document in which a sequence or mapping is used as a key of a generic map. *)
 From Coq Require Import List ZArith String Ascii Bool Arith.
 Import ListNotations.
@@ -55,9 +56,11 @@ Definition field (m : list (yv * yv)) (name : string) : yv :=
   | kv :: _ => snd kv
   end.
 
-(* keys: Panic on a non-string key of a nested struct map; Err on an unknown key or two keys of one field *)
+(* keys: Err on a non-string key, an unknown key or two keys of one field.  (A non-string key of a NESTED
+   struct map is refused by the decode hook stringKeysHook since fix e67ca4a; before it mapstructure's
+   report of unused keys did rawKey.(string) and panicked.) *)
 Definition keys_check (nested : bool) (fields : list string) (m : list (yv * yv)) : res unit :=
-  if nested && negb (forallb (fun kv => is_vstr (fst kv)) m) then Panic
+  if nested && negb (forallb (fun kv => is_vstr (fst kv)) m) then Err
   else if forallb (fun kv => match fst kv with VStr k => existsb (String.eqb k) fields | _ => false end) m &&
           forallb (fun f => Nat.leb (List.length (filter (key_is f) m)) 1) fields
        then Ok tt else Err.
@@ -213,7 +216,11 @@ Fixpoint yaml_ok (v : yv) : bool :=
 Definition decode (root : yv) : res definition :=
   if negb (yaml_ok root) then Err
   else match root with
-       | VNull | VMap _ => dec_definition root
+       | VNull | VMap _ =>
+           match dec_definition root with
+           | Ok d => if no_nil d then Ok d else Err                  (* assertNoNullElements *)
+           | r => r
+           end
        | _ => Err
        end.
 
